@@ -276,3 +276,24 @@ pub fn c07n_twin_size() {
 	let v = Vec::<u32>::sym(2);
 	assert!(v.encoded_size() == 4);
 }
+
+/// decode side of the bulk paths: sequences and arrays of one-byte element types decode exactly like their elements one by one
+/// (a bulk read must not skip the per-element validity check)
+#[kani::proof]
+#[kani::unwind(8)]
+pub fn c07q_bulk_decode_matches_elementwise() {
+	use parity_scale_codec::{Decode, OptionBool};
+	let b: [u8; 3] = kani::any();
+	macro_rules! elemwise { ($t:ty) => {{
+		let mut i = &b[..];
+		let e = [<$t>::decode(&mut i).is_ok(), <$t>::decode(&mut i).is_ok(), <$t>::decode(&mut i).is_ok()];
+		let all = e[0] && e[1] && e[2];
+		assert!(<[$t; 3]>::decode(&mut &b[..]).is_ok() == all, "array decode accepts/rejects differently from its elements one by one");
+		assert!(Vec::<$t>::decode(&mut Pre::count(3, &b[..])).is_ok() == all, "Vec decode accepts/rejects differently from its elements one by one");
+		assert!(alloc::collections::VecDeque::<$t>::decode(&mut Pre::count(2, &b[..2])).is_ok() == (e[0] && e[1]), "VecDeque decode accepts/rejects differently from its elements");
+	}}; }
+	elemwise!(bool);
+	elemwise!(OptionBool);
+	elemwise!(core::num::NonZeroU8);
+	elemwise!(Option<()>);
+}
